@@ -40,6 +40,7 @@ impl Scenario for ConnScenario {
 			ping_ms: if self.name.starts_with("ws-inactive") { Some(2) } else { None },
 			per_conn_http_mw: self.name.contains("http-middleware"),
 			tcp: self.name.starts_with("tcp:"),
+			low_ws: self.name.starts_with("low-level:"),
 			restrict_last: if self.name.contains("http-only-last") { Some(false) } else if self.name.contains("ws-only-last") { Some(true) } else { None },
 			..Default::default()
 		})
@@ -256,6 +257,11 @@ pub fn scenarios(thorough: bool) -> Vec<ConnScenario> {
 		conns.push(http(vec![HttpAct::Call]));
 		add("ws-reset-mid-call", limit, conns, false, mask_harness_only);
 	}
+	// the low-level assembly (an application's own service calling ws::connect / http::call_with_service_builder with a
+	// ConnectionState that carries the permit)
+	add("low-level:http-only", 1, vec![http(vec![HttpAct::SlowCall, HttpAct::Call]), http(vec![HttpAct::SlowCall]), http(vec![HttpAct::Call])], false, mask_harness_only);
+	add("low-level:mixed", 1, vec![ws(vec![PeerAct::SlowCall, PeerAct::CloseFrame]), http(vec![HttpAct::SlowCall]), http(vec![HttpAct::Call])], false, mask_harness_only);
+	add("low-level:http-aborted-mid-call", 1, vec![http(vec![HttpAct::CallThenDrop]), http(vec![HttpAct::Call]), http(vec![HttpAct::SlowCall])], false, mask_harness_only);
 	// exit paths, limit 1: after each path a fresh connection must be admitted
 	add("aborted-upgrade", 1, vec![Conn::WsAbortedUpgrade, ws(vec![PeerAct::Call]), http(vec![HttpAct::Call])], false, mask_harness_only);
 	add("http-aborted-mid-call", 1, vec![http(vec![HttpAct::CallThenDrop]), http(vec![HttpAct::Call]), ws(vec![PeerAct::Call, PeerAct::CloseFrame])], false, mask_harness_only);
